@@ -7,9 +7,9 @@
     Both are functions of the same node forest and of shared oracles with no assumed behaviour.
 
     FULL STATEMENT (all forests, all oracles):  strict_blocks F = false -> prom_accepts F = true.
-    It is FALSE of the faithful models and of the real pint/Prometheus pair: two machine-checked refutations
+    It is FALSE of the faithful models and of the real pint/Prometheus pair: three machine-checked refutations
     below, each with a witness file that the real pint passes and the real rulefmt.Parse refuses (known findings
-    C01-merge-not-alias, C01-tag-kind).  Three further classes (null record/alert/expr, group without a name, limit
+    C01-merge-not-alias, C01-tag-kind, C01-null-tag-text).  Three further classes (null record/alert/expr, group without a name, limit
     that is no Go int) were repaired in pint (d65cbbf, cc77cdd, a6b0afc): their guards and the H_int hypothesis are gone
     from the theorem, and their former witnesses are now machine-checked to be BLOCKED by the pint model
     (C01_fixed_witnesses_blocked).
@@ -21,13 +21,22 @@
       H_empty  the empty string is not a label name, is a label value and is a valid template,
     and every single document satisfying [guards_doc] — the documented fragment:
       - one root; below it only mappings tagged !!map, sequences tagged !!seq and scalars with a scalar tag other
-        than !!merge: no aliases, no merge keys, no explicit collection tags (C01-merge-not-alias, C01-tag-kind),
-        no null-tagged mapping keys, null-tagged scalars spell a null.
+        than !!merge: no merge keys, no explicit collection tags (C01-merge-not-alias, C01-tag-kind),
+        no null-tagged mapping keys, null-tagged scalars spell a null;
+      - yaml ALIASES are inside the fragment where they are the value of a rule key (`expr: *e`, `for: *d`, `labels: *l`,
+        `annotations: *a`) or a value inside a rule's labels / annotations mapping (`severity: *s`), pointing at plain nodes
+        ([rule_guard], [alias_to]: an alias node as yaml.v3 returns it — no content, the ShortTag of its target, a non-empty
+        anchor name).  Aliases elsewhere (mapping keys, rule / group items, group-level values) stay outside: for group
+        `labels: *l` the statement is false (known finding C01-group-labels-alias).
+      [plain_guards_doc]: the alias-free fragment of the earlier rounds is an instance.
     The same oracle [int_ok] (yaml.Node.Decode into a Go int) is used by pint's limit check and by the loader.
-    Outside the fragment (aliases, merge keys) the property is searched by the implementation-level oracle only. *)
+    Outside the fragment (aliases, merge keys) the property is searched by the implementation-level oracle only.
+
+    GLUE (C01_mask_id): on a file without pint control comments the masking reader (Model/Reader.v) is the identity, so
+    pint's yaml.v3 and Prometheus' yaml.v3 decode the same bytes (same syntax errors, same forest). *)
 From Coq Require Import List String Ascii Arith Bool NArith.
-From PintV Require Import Common.Bytes Model.Yaml Model.Parser Model.Routing Model.PromLoader
-     Proofs.C19_relaxed Proofs.C01_prom Proofs.C01_rule Proofs.C01_group Run.C19 Run.C01.
+From PintV Require Import Common.Bytes Model.Yaml Model.Parser Model.Routing Model.PromLoader Model.Reader Model.Comments
+     Proofs.C19_relaxed Proofs.C01_prom Proofs.C01_rule Proofs.C01_group Proofs.C01_mask Run.C19 Run.C01.
 Import ListNotations.
 Open Scope string_scope.
 Open Scope list_scope.
@@ -48,7 +57,8 @@ Theorem C01_sound_partial :
 Proof. intros. eapply stream_sound; eauto. Qed.
 Print Assumptions C01_sound_partial.
 
-(** The rule-level core, usable on its own: an accepted plain rule mapping decodes and passes Rule.Validate. *)
+(** The rule-level core, usable on its own: an accepted rule mapping (aliases allowed in value position) decodes and passes
+    Rule.Validate. *)
 Theorem C01_rule_sound :
   forall (plines : list string -> node -> nat -> nat * nat)
          (metric_ok lname_ok lvalue_ok dur_ok expr_ok tmpl_pint tmpl_prom dur_zero : string -> bool)
@@ -58,13 +68,23 @@ Theorem C01_rule_sound :
     (forall s, tmpl_pint s = true -> tmpl_prom s = true) ->
     lname_ok "" = false -> lvalue_ok "" = true -> tmpl_prom "" = true ->
     forall lines rn glabels,
-      plain_below rn ->
+      rule_guard rn ->
       r_error (parse_rule_strict plines metric_ok lname_ok lvalue_ok lines rn) = None ->
       rule_blocks expr_ok dur_ok tmpl_pint glabels (parse_rule_strict plines metric_ok lname_ok lvalue_ok lines rn) = false ->
       exists pr, dec_rule str_ok null_ok dur_ok rn = DOk pr /\
                  rule_valid expr_ok dur_zero metric_ok lname_ok lvalue_ok tmpl_prom pr = true.
 Proof. intros. eapply rule_sound; eauto. Qed.
 Print Assumptions C01_rule_sound.
+
+(** Glue: without pint control comments the masking reader hands yaml.v3 exactly the bytes of the file (and records its
+    lines, no comments, no diagnostics) — what rulefmt.Parse is given. *)
+Theorem C01_mask_id :
+  forall (tp : string -> option BinNums.Z) (f : string),
+    (forall n buf, In buf (chunks f) -> Comments.parse tp n buf = []) ->
+    r_out (reader_impl tp f) = f /\ r_lines (reader_impl tp f) = map strip_nl (chunks f) /\
+    r_comments (reader_impl tp f) = [] /\ r_diags (reader_impl tp f) = [].
+Proof. intros tp f H. destruct (mask_id tp f H) as (A & B & C & D & _). auto. Qed.
+Print Assumptions C01_mask_id.
 
 (** ---- refutations of the full statement: the witnesses of corpus/C01 as serialised from yaml.v3, with the answers the
     real libraries gave for every scalar (n_ann); both verdicts are evaluated by the models. ---- *)
@@ -75,11 +95,11 @@ Definition refutes (d : node) : Prop := model_blocks (mk d 0) = false /\ model_p
 Definition w_null_record : node :=
   Dc 1 1 388 [Mp "!!map" 1 1 388 [Sc "!!str" "groups" 1 1 439; Sq "!!seq" 2 1 388 [Mp "!!map" 2 3 388
     [Sc "!!str" "name" 2 3 439; Sc "!!str" "g" 2 9 439; Sc "!!str" "rules" 3 3 439;
-     Sq "!!seq" 4 3 388 [Mp "!!map" 4 5 388 [Sc "!!str" "record" 4 5 439; Sc "!!null" "~" 4 13 1511; Sc "!!str" "expr" 5 5 439; Sc "!!str" "up" 5 11 439]]]]]].
+     Sq "!!seq" 4 3 388 [Mp "!!map" 4 5 388 [Sc "!!str" "record" 4 5 439; Sc "!!null" "~" 4 13 2535; Sc "!!str" "expr" 5 5 439; Sc "!!str" "up" 5 11 439]]]]]].
 Definition w_null_expr : node :=
   Dc 1 1 388 [Mp "!!map" 1 1 388 [Sc "!!str" "groups" 1 1 439; Sq "!!seq" 2 1 388 [Mp "!!map" 2 3 388
     [Sc "!!str" "name" 2 3 439; Sc "!!str" "g" 2 9 439; Sc "!!str" "rules" 3 3 439;
-     Sq "!!seq" 4 3 388 [Mp "!!map" 4 5 388 [Sc "!!str" "alert" 4 5 439; Sc "!!str" "A" 4 12 439; Sc "!!str" "expr" 5 5 439; Sc "!!null" "null" 5 11 1527]]]]]].
+     Sq "!!seq" 4 3 388 [Mp "!!map" 4 5 388 [Sc "!!str" "alert" 4 5 439; Sc "!!str" "A" 4 12 439; Sc "!!str" "expr" 5 5 439; Sc "!!null" "null" 5 11 2551]]]]]].
 Definition w_nameless_group : node :=
   Dc 1 1 388 [Mp "!!map" 1 1 388 [Sc "!!str" "groups" 1 1 439; Sq "!!seq" 2 1 388 [Mp "!!map" 2 3 388
     [Sc "!!str" "interval" 2 3 439; Sc "!!str" "1m" 2 13 447]]]].
@@ -106,6 +126,14 @@ Theorem C01_fixed_witnesses_blocked :
   now_blocked w_null_record /\ now_blocked w_null_expr /\ now_blocked w_nameless_group /\ now_blocked w_limit.
 Proof. vm_compute. repeat split. Qed.
 Print Assumptions C01_fixed_witnesses_blocked.
+Definition w_null_tag_text : node :=
+  Dc 1 1 388 [Mp "!!map" 1 1 388 [Sc "!!str" "groups" 1 1 439; Sq "!!seq" 2 1 388 [Mp "!!map" 2 3 388
+    [Sc "!!str" "name" 2 3 439; Sc "!!str" "g1" 2 9 439; Sc "!!str" "rules" 3 3 439;
+     Sq "!!seq" 4 3 388 [Mp "!!map" 4 5 388 [Sc "!!str" "alert" 4 5 439; Sc "!!str" "HighErrors" 4 12 439; Sc "!!str" "expr" 5 5 439; Sc "!!str" "up == 0" 5 11 439;
+                                              Sc "!!str" "for" 6 5 439; Sc "!!str" "5m" 6 10 447; Sc "!!str" "annotations" 7 5 439; Sc "!!null" "x" 7 18 407]]]]]].
+Theorem C01_sound_refuted_null_tag_text : refutes w_null_tag_text.
+Proof. vm_compute. repeat split. Qed.
+Print Assumptions C01_sound_refuted_null_tag_text.
 Theorem C01_sound_refuted_merge_not_alias : refutes w_merge.
 Proof. vm_compute. repeat split. Qed.
 Print Assumptions C01_sound_refuted_merge_not_alias.
